@@ -465,7 +465,7 @@ func init() {
 		panic("sync.Cond without L")
 	}
 	lockerCall := func(m *Machine, l Iface, name string) {
-		fn := m.P.SSA.LookupMethod(l.T, nil, name)
+		fn := m.P.Method(l.T, name)
 		if fn == nil {
 			m.unsupported("Locker method " + name + " on " + l.T.String())
 		}
